@@ -379,14 +379,18 @@ class Gen:
                 m.locals.append(d)
 
     # ---- the property's rules ---------------------------------------------------------------
-    def resolve_plain(self, e, m, key):
-        """[declaration] selected for a plain identifier, or []"""
-        if m is not None:
+    NONVAR = ("const", "type", "proc", "func")
+
+    def resolve_plain(self, e, m, key, novars=False):
+        """[declaration] selected for a plain identifier, or [].  `novars`: the name stands in TYPE position (type
+        reference): parameters, locals and fields are no candidates there — a variable is not a type"""
+        if m is not None and not novars:
             for d in reversed(m.params + m.locals):
                 if d.key() == key:
                     return [d]
+        kinds = self.NONVAR if novars else None
         for a in e.chain():
-            d = a.find(key)
+            d = a.find(key, kinds)
             if d is not None:
                 return [d]
         uses = e.uses
@@ -395,7 +399,7 @@ class Gen:
                 d = a.find(key, kinds=("const", "type"))
                 if d is not None:
                     return [d]
-                if a.find(key) is not None:
+                if a.find(key, kinds) is not None:
                     break    # hidden by a nearer non-const/type declaration of the used entity
             else:
                 continue
@@ -545,10 +549,16 @@ class Gen:
         txt = self.ref(name)
         col = L.col()
         L.add(txt)
-        exp = self.resolve_plain(e, m, name.upper())
-        t = set(tags) | {"typeref"} | self.ghost_tags(e, exp) | (self.plain_tags(e, m, name, exp) & {"entity-named", "local", "shadowing"})
+        exp = self.resolve_plain(e, m, name.upper(), novars=True)
+        t = set(tags) | {"typeref"} | self.ghost_tags(e, exp)
         if txt != name:
             t.add("recased")
+        if self.resolve_plain(e, m, name.upper()) != exp:
+            # a parameter / local / field spelt like the type is visible: the implementation answers with that variable
+            # (recorded finding C10:…:typeref-shadowed; the node's eval type IS the class)
+            if "typeref-shadowed" not in self.dev:
+                return
+            t.add("typeref-shadowed")
         if self.uses_member_hit(e, m, name.upper()):
             # a used entity declares a FIELD of that name (a field spelt like an entity): the recorded uses-member deviation
             if "uses-member" not in self.dev:
